@@ -172,7 +172,9 @@ class PoolProp:
                    res_cap=rng.choice([None, None, 1, 2, 3]), factory=factory,
                    quota=rng.choice([1, 1, 2, 3, 2.0, 2.5]) if factory else None, wait_ready=rng.random() < 0.3, calls=calls,
                    none_inputs=rng.random() < 0.25, body_raises=rng.random() < 0.2,
-                   impatient=(tier != "cover" and rng.random() < 0.15), input_kind=rng.randrange(5))
+                   impatient=(tier != "cover" and rng.random() < 0.15), input_kind=rng.randrange(5),
+                   end_fault=([rng.randrange(n_workers)] + ([n_workers] if factory else [])) if rng.random() < 0.12 else (),
+                   float_chunks=rng.random() < 0.15)
 
     # ---- transition coverage: every reachable transition of the model for small configurations (harness/cover.py) -------
     cover_limit = 60000
